@@ -304,8 +304,18 @@ class Gen:
         params = []
         for p in ("p", "q"):
             if "{:" + p + ":}" in text:
-                params.append([p, self.expr(max(depth - 1, 0))])
+                params.append([p, self.param(max(depth - 1, 0))])
         return {"k": "tmpl", "text": text, "params": params}
+
+    def param(self, depth):
+        """Template parameter: its string form must be brace-free (substituted text is re-resolved)."""
+        rng = self.rng
+        r = rng.random()
+        if r < 0.3:
+            return {"k": "const", "v": rng.choice(U.SCALARS)}
+        if r < 0.6:
+            return {"k": "opt", "key": rng.choice(U.DISPATCH_KEYS), "dk": "const", "dv": rng.choice(U.DISPATCH_VALUES)}
+        return {"k": "apply", "src": self.expr(depth), "fn": "tostr", "n": self.nid()}
 
     def ds_ref(self):
         rng = self.rng
